@@ -256,13 +256,15 @@ func checkC17(c *Ctx) {
 
 	// ---- C17-DECL: a struct type is never registered without its definition
 	if sb := c.mustFn("C17-DECL", "StructBuilder"); sb != nil {
-		reg := c.fn("GoStructRegistryType.RegisterUserdef")
 		defn := c.field("RegisteredType", "UserStructDefn")
 		n := 0
-		if reg != nil && defn != nil {
+		for reg, argIdx := range c.registrationFns() {
+			if defn == nil {
+				break
+			}
 			for _, ci := range callsOf(sb, reg) {
 				n++
-				rt := ci.Common().Args[1]
+				rt := ci.Common().Args[argIdx]
 				has := false
 				eachInstr(sb, func(b *ssa.BasicBlock, i int, in ssa.Instruction) {
 					st, ok := in.(*ssa.Store)
